@@ -93,17 +93,21 @@ impl RSim {
         padded.resize(data_bits / 8, 0);
         let model = BitModel::from_bytes(e, &padded);
         let stats = h.stats.clone();
+        // a buffered reader built over a backend that is already positioned at word k starts
+        // at bit k*W of the stream; the unbuffered reader keeps its own absolute bit index
+        // (initially 0) and positions the backend itself before every access
+        let start_words = if kind.buffered() { h.start_words } else { 0 };
         RSim {
             r,
             h,
             model,
-            pos: 0,
+            pos: start_words * kind.word_bits(),
             e,
             kind,
             data_bits,
             zero_ext: backend.zero_extended(),
             stats,
-            words_base: Some((0, 0)),
+            words_base: Some((0, start_words as u64)),
             pfx,
             prev_kind: 99,
             dead: false,
@@ -321,8 +325,10 @@ impl RSim {
                 }
             }
             ROp::Bytes(len) => {
-                let mut buf = vec![0xEEu8; *len];
-                let r = lib!(format!("io::Read::read({} bytes)", len), self.r.io_read(&mut buf));
+                // the destination starts at a varying offset from an 8-byte aligned address
+                let mut staged = crate::p12::AlignedBytes::new(&vec![0xEEu8; *len], (i + *len) % 8);
+                let r = lib!(format!("io::Read::read({} bytes)", len), self.r.io_read(staged.get_mut()));
+                let buf: Vec<u8> = staged.get().to_vec();
                 let exp = self.model.get_bytes(e, self.pos, *len);
                 ctx.tr(|| format!("#{} io_read({}) @{} -> {:?} {:02x?} (model {:02x?})", i, len, self.pos, r.as_ref().map_err(|e| e.kind()), buf, exp));
                 match r {
